@@ -495,6 +495,41 @@ fn run(ctx: &mut Ctx) {
             ctx.case(&format!("mutate/{}", name), |c| check_batch(c, "corpus_mutation", &b));
         }
     }
+    // F. look-ahead-budget inputs: a unit repeated n times between a prefix and a suffix that carries
+    // further items (the parser may burn its 256-peek budget inside the repetition; everything after
+    // must still be in the tree)
+    {
+        let units: &[&str] = &["(", "[", "f(", "{ ", "a::", "-", "!", "|| ", "if x { ", "match x { _ => ", "(1, ", "x.", "1 + ", "S { f: ", "Vec[", "dyn ", "#[a]", "|", ",", "else ", "=> "];
+        let prefixes: &[&str] = &["fn main() { let _ = ", "fn main() { ", "impl ", "struct S { x: ", "fn f(x: ", "enum E { A(", "trait T { fn m(", "let ", ""];
+        let suffixes: &[&str] = &["a for S { }\nfn g() { }\n", "a) { }\nfn g() { }\n", "; }\nfn g() { }\nfn h() { 1 + }\n", " }\nfn g() { }\n", "\nfn g() { }\nstruct Z { }\n", ", 1)\nfn g() { let z = ; }\n", ""];
+        let counts: &[usize] = &[1, 2, 10, 25, 26, 27, 50, 51, 52, 64, 100, 125, 126, 127, 128, 129, 130, 200, 255, 256, 257, 300, 600];
+        let mut k = 0u64;
+        let mut batch: Vec<String> = Vec::new();
+        for u in units {
+            for pre in prefixes {
+                for suf in suffixes {
+                    k += 1;
+                    if !ctx.mine(k) {
+                        continue;
+                    }
+                    for n in counts {
+                        if tier == crate::runner::Tier::Quick && !matches!(*n, 1 | 26 | 51 | 52 | 126 | 128 | 130 | 257 | 300) {
+                            continue;
+                        }
+                        batch.push(format!("{}{}{}", pre, u.repeat(*n), suf));
+                    }
+                    if batch.len() >= 64 {
+                        let b = std::mem::take(&mut batch);
+                        ctx.case(&format!("lookahead/{}", k), |c| check_batch(c, "lookahead_budget", &b));
+                    }
+                }
+            }
+        }
+        if !batch.is_empty() {
+            let b = std::mem::take(&mut batch);
+            ctx.case("lookahead/tail", |c| check_batch(c, "lookahead_budget", &b));
+        }
+    }
     // E. parser-fuel inputs (long runs of a token the parser may refuse to consume)
     if ctx.shard == 0 {
         let mut b = Vec::new();
